@@ -267,7 +267,10 @@ impl grep_searcher::Sink for PriorSink {
 /// Which past the searcher of a leg gets before the search that is judged:
 /// 0 = none (a fresh searcher), 1 = a completed search of another input,
 /// 2 = a search the sink stopped at its first match, 3 = a reader search that
-/// failed after delivering part of an unterminated line. A `Searcher` is
+/// failed after delivering part of an unterminated line, 4 = a completed
+/// `search_slice` of an input with a byte order mark, 5 = a completed
+/// `search_path` of another file, 6/7 = a completed search in another binary
+/// detection mode followed by `set_binary_detection`. A `Searcher` is
 /// documented to be reusable and ripgrep reuses one per thread: nothing of an
 /// earlier search may show in a later one. Derived from the input so that a
 /// replay takes the same path.
@@ -278,7 +281,8 @@ pub fn history_kind(input: &[u8], leg: &Leg) -> u64 {
     if cfg!(miri) {
         // every search costs seconds in the interpreter: a past for three
         // cases in eight
-        return crate::rng::fnv(input) % 8;
+        let k = crate::rng::fnv(input) % 8;
+        return if k > 4 { 0 } else { k };
     }
     // (per strategy, not per read script: a fault-injection run and the
     // uninterrupted run it is compared with must share their history, e.g.
@@ -290,7 +294,26 @@ pub fn history_kind(input: &[u8], leg: &Leg) -> u64 {
         Leg::HeapLimit { .. } => 3,
         Leg::File { .. } => 4,
     };
-    crate::rng::mix(&[crate::rng::fnv(input), strategy]) % 6
+    crate::rng::mix(&[crate::rng::fnv(input), strategy]) % 8
+}
+
+fn detection(b: Bin) -> BinaryDetection {
+    match b {
+        Bin::None => BinaryDetection::none(),
+        Bin::Quit => BinaryDetection::quit(0),
+        Bin::Convert => BinaryDetection::convert(0),
+    }
+}
+
+/// The binary detection a searcher with history 6 or 7 is built with, before
+/// it is switched to the wanted one (ripgrep switches per file: explicitly
+/// named files are searched with `convert`, traversed ones with `quit`).
+fn other_detection(b: Bin) -> BinaryDetection {
+    match b {
+        Bin::None => BinaryDetection::quit(0),
+        Bin::Quit => BinaryDetection::convert(0),
+        Bin::Convert => BinaryDetection::quit(0),
+    }
 }
 
 fn give_history<M: Matcher>(
@@ -298,6 +321,7 @@ fn give_history<M: Matcher>(
     matcher: &M,
     kind: u64,
     term: Term,
+    wanted: Bin,
 ) {
     let t: &[u8] = match term {
         Term::Lf => b"\n",
@@ -329,6 +353,34 @@ fn give_history<M: Matcher>(
             );
             let _ = searcher.search_reader(matcher, &mut rdr, PriorSink { stop_at_first_match: false });
         }
+        4 => {
+            // a slice that starts with a UTF-8 byte order mark: with BOM
+            // sniffing on it takes the transcoding detour of `search_slice`
+            let mut with_mark = b"\xEF\xBB\xBF".to_vec();
+            with_mark.extend_from_slice(&prior);
+            let _ = searcher.search_slice(matcher, &with_mark, PriorSink { stop_at_first_match: false });
+        }
+        5 => {
+            let mut path = tmpfile();
+            path.set_extension("prior");
+            if std::fs::write(&path, &prior).is_ok() {
+                let _ = searcher.search_path(matcher, &path, PriorSink { stop_at_first_match: false });
+            }
+        }
+        6 | 7 => {
+            // built for another detection mode (see `search_leg_then`), one
+            // search in that mode (7: of data with a NUL byte in it), then
+            // switched over
+            if kind == 7 {
+                prior.extend_from_slice(b" and\x00a NUL");
+                prior.extend_from_slice(t);
+                prior.extend_from_slice(b"m prior after the NUL");
+                prior.extend_from_slice(t);
+            }
+            let mut rdr = ScriptReader::chunks(&prior, 13);
+            let _ = searcher.search_reader(matcher, &mut rdr, PriorSink { stop_at_first_match: false });
+            searcher.set_binary_detection(detection(wanted));
+        }
         _ => {}
     }
 }
@@ -342,31 +394,52 @@ pub fn search_leg<M: Matcher, S: grep_searcher::Sink>(
     input: &[u8],
     sink: S,
 ) -> (Result<(), S::Error>, usize) {
+    search_leg_then(matcher, cfg, leg, input, sink, &mut |_, _| {})
+}
+
+/// As `search_leg`; `after` is handed the searcher once the search has
+/// returned (however it ended), to go on using it as ripgrep's workers do.
+pub fn search_leg_then<M: Matcher, S: grep_searcher::Sink>(
+    matcher: M,
+    cfg: &SearchCfg,
+    leg: &Leg,
+    input: &[u8],
+    sink: S,
+    after: &mut dyn FnMut(&mut grep_searcher::Searcher, &M),
+) -> (Result<(), S::Error>, usize) {
     let mut b = cfg.builder();
     let mut read_calls = 0;
     let hist = history_kind(input, leg);
+    if hist >= 6 && !matches!(leg, Leg::HeapLimit { .. }) {
+        b.binary_detection(other_detection(cfg.binary));
+    }
     let result = match leg {
         Leg::Slice => {
             let mut searcher = b.build();
-            give_history(&mut searcher, &matcher, hist, cfg.term);
-            searcher.search_slice(matcher, input, sink)
+            give_history(&mut searcher, &matcher, hist, cfg.term, cfg.binary);
+            let r = searcher.search_slice(&matcher, input, sink);
+            after(&mut searcher, &matcher);
+            r
         }
         Leg::Reader { cap, script, tail, cycle } => {
             b.verif_buffer_capacity(*cap);
             let mut rdr =
                 ScriptReader::new(input, script.clone(), *tail, *cycle);
             let mut searcher = b.build();
-            give_history(&mut searcher, &matcher, hist, cfg.term);
-            let r = searcher.search_reader(matcher, &mut rdr, sink);
+            give_history(&mut searcher, &matcher, hist, cfg.term, cfg.binary);
+            let r = searcher.search_reader(&matcher, &mut rdr, sink);
             read_calls = rdr.calls;
+            after(&mut searcher, &matcher);
             r
         }
         Leg::HeapLimit { limit, tail } => {
             // (no history here: the prior input need not fit the limit)
             b.heap_limit(Some(*limit));
             let mut rdr = ScriptReader::chunks(input, *tail);
-            let r = b.build().search_reader(matcher, &mut rdr, sink);
+            let mut searcher = b.build();
+            let r = searcher.search_reader(&matcher, &mut rdr, sink);
             read_calls = rdr.calls;
+            after(&mut searcher, &matcher);
             r
         }
         Leg::File { mmap } => {
@@ -382,11 +455,69 @@ pub fn search_leg<M: Matcher, S: grep_searcher::Sink>(
                 b.memory_map(unsafe { MmapChoice::auto() });
             }
             let mut searcher = b.build();
-            give_history(&mut searcher, &matcher, hist, cfg.term);
-            searcher.search_path(matcher, &path, sink)
+            give_history(&mut searcher, &matcher, hist, cfg.term, cfg.binary);
+            let r = searcher.search_path(&matcher, &path, sink);
+            after(&mut searcher, &matcher);
+            r
         }
     };
     (result, read_calls)
+}
+
+/// The text searched second by `run_leg_then` (terminated like the case).
+pub fn followup_input(term: Term) -> Vec<u8> {
+    let t: &[u8] = match term {
+        Term::Lf => b"\n",
+        Term::Crlf => b"\r\n",
+        Term::Nul => b"\0",
+    };
+    let mut v = vec![];
+    for piece in [&b"m follow one"[..], b"zz follow two", b"m follow three xyz", b"foo follow four a", b"m follow five"] {
+        v.extend_from_slice(piece);
+        v.extend_from_slice(t);
+    }
+    v.extend_from_slice(b"m follow tail");
+    v
+}
+
+/// `run_leg`, and then a second, uninterrupted reader search of
+/// `followup_input` through the same searcher. Returns both outcomes.
+pub fn run_leg_then<M: Matcher>(
+    matcher: M,
+    cfg: &SearchCfg,
+    leg: &Leg,
+    input: &[u8],
+    stop: Option<(usize, Stop)>,
+) -> (Outcome, Outcome) {
+    let mut sink = LogSink::new();
+    sink.stop_at = stop;
+    let mut follow = LogSink::new();
+    let mut follow_result: Result<(), LogError> = Ok(());
+    let mut follow_reads = 0;
+    let next = followup_input(cfg.term);
+    let caught = std::panic::catch_unwind(std::panic::AssertUnwindSafe(|| {
+        search_leg_then(matcher, cfg, leg, input, &mut sink, &mut |searcher, m| {
+            let mut rdr = ScriptReader::chunks(&next, 11);
+            follow_result = searcher.search_reader(m, &mut rdr, &mut follow);
+            follow_reads = rdr.calls;
+        })
+    }));
+    let (result, read_calls) = match caught {
+        Ok(x) => x,
+        Err(p) => {
+            let msg = p
+                .downcast_ref::<String>()
+                .cloned()
+                .or_else(|| p.downcast_ref::<&str>().map(|s| s.to_string()))
+                .unwrap_or_else(|| "panic".to_string());
+            follow_result = Err(LogError::Panicked(msg.clone()));
+            (Err(LogError::Panicked(msg)), 0)
+        }
+    };
+    (
+        Outcome { calls_after_stop: sink.calls_after_stop, log: sink.log, result, read_calls },
+        Outcome { calls_after_stop: follow.calls_after_stop, log: follow.log, result: follow_result, read_calls: follow_reads },
+    )
 }
 
 /// Run one search with the recording sink. `stop`: scripted sink stop.
